@@ -68,20 +68,27 @@ def run(ck, ctx):
             is_logc = is_ext_call(v, "numpy.log10")
             ck.ob("R05.1", f"value stored under '{g.show(sc.args[1], 2)}' is log-domain", is_interp or is_logc,
                   sc, func, g.show(v, 2))
-            if is_logc:
-                floors.append((sc, v.args[1]))
         # ---- R05.3 coverage
         pr = Pred(I)
         kinds = coverage_rules(ck, "R05.3", I, pr, arr, T.betas, "beta_rad", func, "exit probability")
         # low angles: evaluated at the table's first beta
         if "low" in kinds:
-            sc, bound = kinds["low"]
-            v = sc.args[2]
+            sc, bound, v = kinds["low"]
             pts = v.args[1] if v.op == "Call" and len(v.args) > 1 else None
             ok = pts is not None and pts.op in ("Tuple", "List") and len(pts.args) == 2 and \
                 g.same(pts.args[1], bound)
-            ck.ob("R05.3", "angles below the table take the value at the table's minimum angle", ok, sc, func,
+            ck.ob("R05.3", "angles below the table take the value at the table's minimum angle", ok, sc or arr, func,
                   g.show(pts, 3) if pts is not None else g.show(v, 2))
+        if "high" in kinds:
+            sc, bound, v = kinds["high"]
+            okh = is_ext_call(v, "numpy.log10")
+            ck.ob("R05.1", "angles above the table get log10(floor)", okh, sc or arr, func, g.show(v, 2))
+            if okh:
+                floors.append((sc or arr, v.args[1]))
+        if "valid" in kinds:
+            sc, _b, v = kinds["valid"]
+            ck.ob("R05.1", "angles inside the table get the interpolator's value", v.op == "Call" and
+                  v.args[0] in ctors, sc or arr, func, g.show(v, 2))
         # ---- R05.5 point order
         dep = Dep(I)
         n_pts = 0
